@@ -83,6 +83,9 @@ func fileFixtures(r *rand.Rand, thorough bool) []*fileFixture {
 	ref("ref-balanced-pb-v0", oracle.ImportMode{Layout: "balanced", RawLeaves: false, CidV1: false}, 2, 40)
 	ref("ref-trickle-pb-v1", oracle.ImportMode{Layout: "trickle", RawLeaves: false, CidV1: true}, 2, 50)
 	ref("ref-trickle-raw-v1", oracle.ImportMode{Layout: "trickle", RawLeaves: true, CidV1: true}, 3, 60)
+	// small blocks inlined into identity CIDs (ipfs add --inline), protobuf and raw leaves
+	ref("ref-inline-pb-v1", oracle.ImportMode{Layout: "balanced", RawLeaves: false, CidV1: true, Inline: 32}, 3, 57)
+	ref("ref-inline-raw-v1", oracle.ImportMode{Layout: "balanced", RawLeaves: true, CidV1: true, Inline: 32}, 2, 35)
 	hand := func(o handFileOpts, n int) {
 		st := store.New()
 		content := gen.Content(r, "rand", n)
@@ -103,6 +106,11 @@ func fileFixtures(r *rand.Rand, thorough bool) []*fileFixture {
 	hand(handFileOpts{Width: 3, PBLeaves: true, LeafType: 2, PBTsize: 3}, 46)
 	hand(handFileOpts{Width: 2, PBLeaves: true, LeafType: 0, PBTsize: 2}, 39)
 	hand(handFileOpts{Width: 3, PBLeaves: false, HighMode: true}, 42)
+	// interior nodes whose Data field is present but empty (content-identical to leaving it out)
+	hand(handFileOpts{Width: 3, PBLeaves: true, LeafType: 2, EmptyData: true}, 49)
+	hand(handFileOpts{Width: 2, PBLeaves: false, EmptyData: true}, 33)
+	// one block size too many (a trailing 0 entry without a link)
+	hand(handFileOpts{Width: 3, PBLeaves: true, LeafType: 2, ExtraBlockSize: true}, 50)
 	{
 		// an empty chunk in the middle (declared block size 0)
 		st := store.New()
